@@ -58,7 +58,8 @@ def processing_clause(cl, rng, n, replay):
         ns, ew, vt, dt = rp.gen_window(rng, N=int(rng.integers(80, 200)), dt=0.01, scale=1.0)
         az = float(rng.choice([0., 25., 90., 140., 33.3]))
         mk = lambda: rp.mk_record(ns, ew, vt, dt)
-        sa = lambda a: hvsrpy.HvsrTraditionalSingleAzimuthProcessingSettings(smoothing=SM, azimuth_in_degrees=a)
+        taper = [["tukey", 0.1], ["tukey", 0.6], ["tukey", 0.0], ["tukey", 1.0]][j % 4]       # the single-azimuth, azimuthal and RotDpp runs share the taper
+        sa = lambda a: hvsrpy.HvsrTraditionalSingleAzimuthProcessingSettings(smoothing=SM, azimuth_in_degrees=a, window_type_and_width=list(taper))
         h_a = hvsrpy.process([mk()], sa(az)).amplitude[0]
         rec = mk()
         rec.orient_sensor_to(az)
@@ -72,14 +73,14 @@ def processing_clause(cl, rng, n, replay):
         # azimuthal == stack, rotdpp bounds and monotonicity
         azs = [np.array([20.]), np.array([10., 30., 75.]), np.arange(0, 180, 35.), np.array([30., 120.]), np.arange(0, 180, 45.)][j % 5]
         stack = np.array([hvsrpy.process([mk()], sa(float(a))).amplitude[0] for a in azs])
-        hz = hvsrpy.process([mk()], hvsrpy.HvsrAzimuthalProcessingSettings(smoothing=SM, azimuths_in_degrees=azs))
+        hz = hvsrpy.process([mk()], hvsrpy.HvsrAzimuthalProcessingSettings(smoothing=SM, azimuths_in_degrees=azs, window_type_and_width=list(taper)))
         got = np.array([x.amplitude[0] for x in hz.hvsrs])
         if not close(got, stack, 1e-8):
             cl.fail("hvsrpy.processing.azimuthal_hvsr_processing", "azimuthal result is not the stack of the single-azimuth results", signature="proc:azimuthal", azimuths=azs)
             return
         prev = None
         for p in (0., 25., 50., 80., 100.):
-            r = hvsrpy.process([mk()], hvsrpy.HvsrTraditionalRotDppProcessingSettings(smoothing=SM, azimuths_in_degrees=azs,
+            r = hvsrpy.process([mk()], hvsrpy.HvsrTraditionalRotDppProcessingSettings(smoothing=SM, azimuths_in_degrees=azs, window_type_and_width=list(taper),
                                                                                        ppth_percentile_for_rotdpp_computation=p)).amplitude[0]
             lo, hi = stack.min(axis=0), stack.max(axis=0)
             tol = 1e-8 * hi
